@@ -816,11 +816,15 @@ func (m *Machine) copyBuiltin(dst, src Val, in ssa.CallInstruction) Val {
 	}
 	dl, sl := seqLen(dst), seqLen(src)
 	var n Int
-	switch r := m.tryLeq(dl, sl); {
-	case r == 1:
-		n = dl
-	case r == 0:
+	switch {
+	case m.tryLeq(sl, dl) == 1:
 		n = sl
+	case m.tryLeq(dl, sl) == 1:
+		n = dl
+	case dl.IsConst() && sl.In != 0 && !sl.Top:
+		panic(abortErr{msg: "cell split needed", refine: &Refine{In: sl.In - 1, Cuts: []int64{dl.Lo - sl.Off + 1}}})
+	case sl.IsConst() && dl.In != 0 && !dl.Top:
+		panic(abortErr{msg: "cell split needed", refine: &Refine{In: dl.In - 1, Cuts: []int64{sl.Lo - dl.Off + 1}}})
 	default:
 		if dl.Top || sl.Top {
 			n = Int{Lo: 0, Hi: math.MaxInt64}
